@@ -6,7 +6,7 @@ SNAP=/tmp/verif-snap-$$
 git -C /verif worktree add -q --detach $SNAP HEAD
 export VERIF_CHECK_DIR=$SNAP VERIF_DRIVER=/verif/driver/target/release/ffz-mir
 for id in "$@"; do
-  for n in 1 2; do
+  for n in 1 2 3; do
     if [ -f $R/$id/OUT/patch$n.diff ] && [ -f $R/$id/OUT/meta$n.json ]; then
       /verif/tools_seed.py $id $n > $R/$id.eval$n.log 2>&1
     fi
